@@ -340,6 +340,12 @@ class FortranBackend(BaseBackend):
     @staticmethod
     def expr_to_str(expr: str, args: tuple):
 
+        # a real literal without the exponent letter `d` is a default (single precision) real in Fortran: `0.1*x` would
+        # multiply x by 0.10000000149011612. Real literals are written as double precision literals.
+        expr = re.sub(r"(?<![\w.])(\d+\.\d*|\.\d+)(?:[eE]([+-]?\d+))?(?![\w.])",
+                      lambda m: f"{m.group(1)}d{m.group(2) if m.group(2) else '0'}", expr)
+        expr = re.sub(r"(?<![\w.])(\d+)[eE]([+-]?\d+)(?![\w.])", r"\1d\2", expr)
+
         # a quotient of two integer literals (the printed form of a rational number such as the exponent in x**(1/3))
         # would be an integer division in Fortran
         expr = re.sub(r"(?<![\w.)])(\d+)/(\d+)(?![\w.(])", r"\1.0d0/\2.0d0", expr)
